@@ -320,19 +320,88 @@ func runC20(r *simkit.R) {
 	}
 }
 
+// linReach returns the union of the abstract states the register model can be in after ALL
+// the given operations (of one object) were linearized in some order that respects their
+// real-time precedence; 0 = the operations admit no linearization.  (Own small search, used
+// for the diagnosis only; the verdict itself is porcupine's.)
+func linReach(all []simkit.LinOp, upto int) int {
+	// required: the operations that returned not later than all[upto]; optional (pending): those
+	// invoked before that moment that returned later — they may take effect at any point after
+	// their invocation, or not yet.
+	horizon := all[upto].Ret
+	var ops []simkit.LinOp
+	required := 0
+	for _, o := range all {
+		switch {
+		case o.Ret <= horizon:
+			required |= 1 << len(ops)
+			ops = append(ops, o)
+		case o.Call < horizon:
+			o.Ret = ^uint64(0) - 1
+			ops = append(ops, o)
+		}
+	}
+	n := len(ops)
+	if n > 20 {
+		return stAbsent | stPresent | stTomb
+	}
+	type key struct{ done, st int }
+	seen := map[key]bool{}
+	res := 0
+	var dfs func(done, st int)
+	dfs = func(done, st int) {
+		if done&required == required {
+			res |= st
+		}
+		k := key{done, st}
+		if seen[k] {
+			return
+		}
+		seen[k] = true
+		// the earliest return among the operations not linearized yet: only operations invoked
+		// before it may come next
+		minRet := ^uint64(0)
+		for i := 0; i < n; i++ {
+			if done&(1<<i) == 0 && ops[i].Ret < minRet {
+				minRet = ops[i].Ret
+			}
+		}
+		for i := 0; i < n; i++ {
+			if done&(1<<i) != 0 || ops[i].Call > minRet {
+				continue
+			}
+			// try each single possible state separately (the model is set-valued)
+			for _, one := range []int{stAbsent, stPresent, stTomb} {
+				if st&one == 0 {
+					continue
+				}
+				if ok, nx := regStep(one, ops[i].In, ops[i].Out); ok {
+					dfs(done|1<<i, nx.(int))
+				}
+			}
+		}
+	}
+	dfs(0, stAbsent)
+	return res
+}
+
 // describeLin: a compact, schedule-independent classification of a non-linearizable
-// per-object history: replays it sequentially (by return order) and names the first
-// operation whose outcome the model rejects.
+// per-object history: the shortest prefix (in return order) that admits no linearization
+// names the offending operation; the state quoted is what the operations before it can leave.
 func describeLin(lin []simkit.LinOp, key string) string {
+	var ops []simkit.LinOp
+	for _, o := range lin {
+		if o.Key == key {
+			ops = append(ops, o)
+		}
+	}
 	st := stAbsent
 	lastMut := ""
-	for _, o := range lin {
-		if o.Key != key {
-			continue
-		}
-		ok, nx := regStep(st, o.In, o.Out)
+	tombDone := false
+	for i, o := range ops {
 		out := o.Out.(regOut)
-		if !ok {
+		nx := linReach(ops, i)
+		if nx == 0 {
 			sig := fmt.Sprintf("%s returns %s while the object is %s", o.In, out.res, stName(st))
 			switch {
 			case out.bad != "":
@@ -342,17 +411,23 @@ func describeLin(lin []simkit.LinOp, key string) string {
 			}
 			return sig
 		}
-		if k := o.In.(string); out.res == "ok" && k != "get" && k != "head" && st != stTomb {
-			// (while the object is tombstoned, later acknowledged calls change nothing: the
-			// diagnosis stays with the call that established the state)
-			lastMut = ""
-			if out.bad != "" {
-				lastMut = "the acknowledged " + k + ": " + out.bad
+		if k := o.In.(string); out.res == "ok" && k != "get" && k != "head" {
+			switch {
+			case !tombDone:
+				// the diagnosis stays with the last acknowledged mutation; once a tombstone was
+				// acknowledged, with that tombstone (later acknowledged calls change nothing)
+				lastMut = ""
+				if out.bad != "" {
+					lastMut = "the acknowledged " + k + ": " + out.bad
+				}
+				if k == "tomb" {
+					tombDone = true
+				}
+			case k == "put" && st == stTomb && out.bad != "":
+				lastMut = "a put of the tombstoned object was acknowledged: " + out.bad
 			}
-		} else if k == "put" && out.res == "ok" && st == stTomb && out.bad != "" {
-			lastMut = "a put of the tombstoned object was acknowledged: " + out.bad
 		}
-		st = nx.(int)
+		st = nx
 	}
 	return "concurrent operations admit no order"
 }
